@@ -19,6 +19,9 @@ def check(ctx, prog):
     # separate-variables encoding: the views must be intersected (R-WRITEBACK-MONO) and the constraint re-run after its own write-back
     engine.rule_queue_drain(ctx, prog)
     engine.rule_queue_writers(ctx, prog, thorough=ctx.tier == "thorough")
+    # a constraint over already-fixed values is only ever checked because a new solver starts with every constraint queued: the same model written
+    # with the fixed values folded into the constraints would be checked by construction
+    engine.rule_stack_writers(ctx, prog, thorough=ctx.tier == "thorough")
     kinds.rule_count_kind(ctx, prog)
     kinds.rule_index_kind(ctx, prog)  # a number is a variable index or a shared-domain index, not both
     model.rule_optional_override(ctx, prog)
